@@ -15,6 +15,7 @@ import (
 	"go/ast"
 	"go/parser"
 	"go/token"
+	"go/types"
 	"os"
 	"path/filepath"
 	"sort"
@@ -36,6 +37,7 @@ const (
 	kHash
 	kList
 	kErr
+	kRaw // a Section variable whose Coq type is written out in name
 	kUnknown
 )
 
@@ -71,6 +73,8 @@ func (t ty) coq() string {
 			p = append(p, s.coq())
 		}
 		return "(" + strings.Join(p, " * ") + ")"
+	case kRaw:
+		return t.name
 	case kUnknown:
 		if strings.Contains(t.name, "->") { // a Section variable with a written-out type (lookup oracle)
 			return t.name
@@ -109,7 +113,31 @@ type target struct {
 	// a row, finds none, or fails); DropParams: parameters that only carry the database handle
 	Oracles    map[string]string
 	DropParams []string
+	// StructFields: struct -> the fields the record keeps (a view: the other fields are not modelled; reading one fails loudly)
+	StructFields map[string][]string
+	// IntTypes: named integer types (enumerations), rendered as N
+	IntTypes []string
+	// Extra: functions of other files (methods of the named integer types), translated first into the same output; Alias = the
+	// import name under which the main file refers to that package's constants
+	Extra []extraSrc
+	// CtxCalls: method (last selector of a call chain rooted at the context receiver) -> Section variable standing for the call
+	CtxCalls map[string]ctxCall
+	// IntLit: `x := 0` declares a Go int (Z), as the language says; off for the older targets whose literals are all unsigned
+	IntLit bool
 }
+
+type extraSrc struct {
+	File  string
+	Alias string
+	Funcs []string
+}
+type ctxCall struct {
+	Var    string
+	Params []ty
+	Rets   []ty
+}
+
+var curIntTypes = map[string]bool{}
 
 type region struct {
 	Func   string
@@ -142,6 +170,21 @@ var targets = []target{
 		Regions: []region{{Func: "UpdatableTree.UpsertLeaf", Name: "UpsertLeaf_loop", Params: []param{
 			{"leaf_Index", ty{k: kInt}}, {"currentChildHash", hashT}, {"siblings", ty{k: kList, sub: []ty{hashT}}},
 			{"newNodes", ty{k: kList, sub: []ty{{k: kStruct, name: "TreeNode"}}}}}}}},
+	{File: "aggsender/flows/flow_base.go", Out: "GenFlowBase.v",
+		Module: "aggsender/flows/flow_base.go (getLastSentBlockAndRetryCount, getNextHeightAndPreviousLER) and the CertificateStatus predicates of agglayer/types/types.go",
+		Hash: true, IntLit: true, Ctx: "baseFlow",
+		Structs: []string{"CertificateHeader"}, StructsFrom: map[string]string{"CertificateHeader": "aggsender/types/types.go"},
+		StructFields: map[string][]string{"CertificateHeader": {"Height", "RetryCount", "PreviousLocalExitRoot", "NewLocalExitRoot", "FromBlock", "ToBlock", "Status"}},
+		IntTypes: []string{"CertificateStatus"},
+		Extra: []extraSrc{{File: "agglayer/types/types.go", Alias: "agglayertypes",
+			Funcs: []string{"CertificateStatus.IsOpen", "CertificateStatus.IsClosed", "CertificateStatus.IsSettled", "CertificateStatus.IsInError"}}},
+		CtxCalls: map[string]ctxCall{
+			"StartL2Block": {Var: "startL2Block", Rets: []ty{{k: kInt}}},
+			"getStartLER":  {Var: "startLER", Rets: []ty{hashT, {k: kErr}}},
+			"GetCertificateHeaderByHeight": {Var: "certByHeight", Params: []ty{{k: kInt}},
+				Rets: []ty{{k: kOpt, sub: []ty{{k: kStruct, name: "CertificateHeader"}}}, {k: kErr}}},
+		},
+		Funcs: []string{"baseFlow.getLastSentBlockAndRetryCount", "baseFlow.getNextHeightAndPreviousLER"}},
 	{File: "aggsender/types/block_range.go", Out: "GenBlockRange.v", Module: "aggsender/types/block_range.go",
 		Structs: []string{"BlockRange"},
 		Funcs:   []string{"getBlockMinusOne", "BlockRange.CountBlocks", "BlockRange.IsEmpty", "BlockRange.Gap"}},
@@ -163,6 +206,7 @@ type tr struct {
 	ctxVars  map[string]ty            // Section variables (context selectors), name -> type
 	ctxOrder []string
 	errs     []string
+	funcFile map[string]*ast.File // translated function key -> the file it is declared in (Extra sources)
 }
 
 func (t *tr) fail(n ast.Node, format string, a ...any) {
@@ -188,6 +232,9 @@ func goType(e ast.Expr, structs map[string]*structDef) ty {
 		case "error":
 			return ty{k: kErr}
 		}
+		if curIntTypes[v.Name] {
+			return ty{k: kInt, name: v.Name}
+		}
 		if _, ok := structs[v.Name]; ok {
 			return ty{k: kStruct, name: v.Name}
 		}
@@ -202,6 +249,9 @@ func goType(e ast.Expr, structs map[string]*structDef) ty {
 		}
 		if x, ok := v.X.(*ast.Ident); ok && x.Name == "types" && v.Sel.Name == "Proof" { // [DefaultHeight]common.Hash
 			return ty{k: kList, name: "arr32", sub: []ty{{k: kHash}}}
+		}
+		if curIntTypes[v.Sel.Name] {
+			return ty{k: kInt, name: v.Sel.Name}
 		}
 		if _, ok := structs[v.Sel.Name]; ok {
 			return ty{k: kStruct, name: v.Sel.Name}
@@ -227,6 +277,8 @@ type env struct {
 	loopTup string
 	inLoop  bool
 	loopRet bool
+	// pointers known to be non-nil here: printed expression -> the name bound to the value pointed to
+	deref map[string]string
 }
 
 func (e *env) clone() *env {
@@ -234,6 +286,10 @@ func (e *env) clone() *env {
 		loopTup: e.loopTup, inLoop: e.inLoop, loopRet: e.loopRet}
 	for k, v := range e.vars {
 		n.vars[k] = v
+	}
+	n.deref = map[string]string{}
+	for k, v := range e.deref {
+		n.deref[k] = v
 	}
 	return n
 }
@@ -328,6 +384,9 @@ func (t *tr) expr(e ast.Expr, en *env) (string, ty) {
 			if c, isConst := t.consts[strings.Join(chain, ".")]; isConst {
 				return c.code, c.t
 			}
+			if t.tg.Hash && len(chain) == 2 && chain[1] == "ZeroHash" { // aggkitcommon.ZeroHash = common.Hash{}
+				return "hash0", ty{k: kHash}
+			}
 		}
 		if ok && len(chain) == 2 && en.flat[chain[0]] { // field of an external struct parameter
 			name := chain[0] + "_" + chain[1]
@@ -366,6 +425,15 @@ func (t *tr) expr(e ast.Expr, en *env) (string, ty) {
 			return "(Some " + c + ")", ty{k: kOpt, sub: []ty{ct}}
 		}
 		t.fail(v, "unary operator %s", v.Op)
+		return "?", ty{k: kUnknown}
+	case *ast.StarExpr: // *p, only where p is known to be non-nil (an enclosing `p != nil` test bound the value)
+		if name, ok := en.deref[types.ExprString(v.X)]; ok {
+			_, pt := t.expr(v.X, en)
+			if pt.k == kOpt {
+				return name, pt.sub[0]
+			}
+		}
+		t.fail(v, "dereference of %s outside a nil test", types.ExprString(v.X))
 		return "?", ty{k: kUnknown}
 	case *ast.CompositeLit:
 		return t.composite(v, en)
@@ -538,13 +606,39 @@ func (t *tr) call(v *ast.CallExpr, en *env) (string, ty) {
 			}
 			t.fail(v, "errors.Is with anything but db.ErrNotFound")
 			return "?", ty{k: kUnknown}
-		case "fmt.Errorf": // wrapping keeps the class of the wrapped error
-			if len(v.Args) >= 2 {
-				if c, ct := t.expr(v.Args[len(v.Args)-1], en); ct.k == kErr {
-					return c, ct
+		case "fmt.Errorf": // always a non-nil error; %w keeps the class of the wrapped error (a wrapped nil is still an error)
+			wraps := false
+			ast.Inspect(v.Args[0], func(n ast.Node) bool {
+				if bl, ok := n.(*ast.BasicLit); ok && bl.Kind == token.STRING && strings.Contains(bl.Value, "%w") {
+					wraps = true
+				}
+				return true
+			})
+			if wraps && len(v.Args) >= 2 {
+				if id, ok := v.Args[len(v.Args)-1].(*ast.Ident); ok && en.vars[id.Name].k == kErr {
+					return "(err_wrap " + id.Name + ")", ty{k: kErr}
+				}
+				t.fail(v, "fmt.Errorf with %%w whose last argument is not an error variable")
+				return "?", ty{k: kUnknown}
+			}
+			return "EFail", ty{k: kErr}
+		case "slices.Contains": // slices.Contains(<package-level slice of constants>, x)
+			if len(v.Args) == 2 {
+				if id, ok := v.Args[0].(*ast.Ident); ok {
+					if elts := t.packageSlice(id.Name); elts != nil {
+						x, xt := t.expr(v.Args[1], en)
+						var es []string
+						for _, e := range elts {
+							c, _ := t.expr(e, en)
+							es = append(es, c)
+						}
+						if xt.k == kInt {
+							return "(existsb (N.eqb " + x + ") [" + strings.Join(es, "; ") + "])", ty{k: kBool}
+						}
+					}
 				}
 			}
-			t.fail(v, "fmt.Errorf that does not wrap an error as its last argument")
+			t.fail(v, "slices.Contains of anything but a package-level slice literal of integers")
 			return "?", ty{k: kUnknown}
 		}
 	}
@@ -588,6 +682,36 @@ func (t *tr) call(v *ast.CallExpr, en *env) (string, ty) {
 			}
 		}
 	}
+	if chain, ok := selChain(v.Fun); ok && en.rctx && chain[0] == en.recv && len(chain) >= 2 {
+		if cc, ok := t.tg.CtxCalls[chain[len(chain)-1]]; ok { // a call through the context: an oracle
+			var args []string
+			for _, a := range v.Args {
+				c, _ := t.expr(a, en)
+				args = append(args, c)
+			}
+			if _, known := t.ctxVars[cc.Var]; !known {
+				var ps []string
+				for _, p := range cc.Params {
+					ps = append(ps, p.coq())
+				}
+				rt := ty{k: kTuple, sub: cc.Rets}
+				if len(cc.Rets) == 1 {
+					rt = cc.Rets[0]
+				}
+				ps = append(ps, rt.coq())
+				t.ctxVars[cc.Var] = ty{k: kRaw, name: strings.Join(ps, " -> ")}
+				t.ctxOrder = append(t.ctxOrder, cc.Var)
+			}
+			rt := ty{k: kTuple, sub: cc.Rets}
+			if len(cc.Rets) == 1 {
+				rt = cc.Rets[0]
+			}
+			if len(args) == 0 {
+				return cc.Var, rt
+			}
+			return "(" + cc.Var + " " + strings.Join(args, " ") + ")", rt
+		}
+	}
 	var fname string
 	var args []string
 	switch f := v.Fun.(type) {
@@ -604,7 +728,7 @@ func (t *tr) call(v *ast.CallExpr, en *env) (string, ty) {
 			fname = f.Sel.Name
 		} else {
 			xc, xt := t.expr(f.X, en)
-			if xt.k != kStruct {
+			if !(xt.k == kStruct || (xt.k == kInt && xt.name != "")) {
 				t.fail(v, "method call on a non-record")
 				return "?", ty{k: kUnknown}
 			}
@@ -638,6 +762,14 @@ func (t *tr) binary(v *ast.BinaryExpr, en *env) (string, ty) {
 				return "(negb (err_eqb " + a + " EOK))", ty{k: kBool}
 			}
 			return "(err_eqb " + a + " EOK)", ty{k: kBool}
+		}
+	}
+	if at.k == kZ || bt.k == kZ { // an untyped integer constant next to an int is an int
+		if bl, ok := v.X.(*ast.BasicLit); ok && bl.Kind == token.INT && at.k == kInt {
+			a, at = a+"%Z", ty{k: kZ}
+		}
+		if bl, ok := v.Y.(*ast.BasicLit); ok && bl.Kind == token.INT && bt.k == kInt {
+			b, bt = b+"%Z", ty{k: kZ}
 		}
 	}
 	k := at.k
@@ -678,6 +810,27 @@ func (t *tr) binary(v *ast.BinaryExpr, en *env) (string, ty) {
 			return op2("N.eqb", kBool)
 		case token.NEQ:
 			return "(negb (N.eqb " + a + " " + b + "))", ty{k: kBool}
+		}
+	case kZ:
+		switch v.Op {
+		case token.ADD:
+			return op2("i64_add", kZ)
+		case token.SUB:
+			return op2("i64_sub", kZ)
+		case token.MUL:
+			return op2("i64_mul", kZ)
+		case token.LSS:
+			return op2("Z.ltb", kBool)
+		case token.LEQ:
+			return op2("Z.leb", kBool)
+		case token.GTR:
+			return "(Z.ltb " + b + " " + a + ")", ty{k: kBool}
+		case token.GEQ:
+			return "(Z.leb " + b + " " + a + ")", ty{k: kBool}
+		case token.EQL:
+			return op2("Z.eqb", kBool)
+		case token.NEQ:
+			return "(negb (Z.eqb " + a + " " + b + "))", ty{k: kBool}
 		}
 	case kFloat:
 		switch v.Op {
@@ -870,7 +1023,10 @@ func (t *tr) block(list []ast.Stmt, en *env, tail string, ind string) string {
 				parts = append(parts, "EOK")
 				continue
 			}
-			c, _ := t.expr(r, en)
+			c, ct := t.expr(r, en)
+			if bl, ok := r.(*ast.BasicLit); ok && bl.Kind == token.INT && ct.k == kInt && i < len(en.rets) && en.rets[i].k == kZ {
+				c += "%Z"
+			}
 			parts = append(parts, c)
 		}
 		res := "(" + strings.Join(parts, ", ") + ")"
@@ -914,6 +1070,9 @@ func (t *tr) block(list []ast.Stmt, en *env, tail string, ind string) string {
 			}
 		}
 		c, ct := t.expr(v.Rhs[0], en)
+		if bl, ok := v.Rhs[0].(*ast.BasicLit); ok && bl.Kind == token.INT && v.Tok == token.DEFINE && t.tg.IntLit {
+			c, ct = c+"%Z", ty{k: kZ}
+		}
 		if len(v.Lhs) == 1 {
 			switch l := v.Lhs[0].(type) {
 			case *ast.Ident:
@@ -963,6 +1122,33 @@ func (t *tr) block(list []ast.Stmt, en *env, tail string, ind string) string {
 		if v.Init != nil {
 			t.fail(v, "if with an init statement")
 			return "?"
+		}
+		if be, ok := v.Cond.(*ast.BinaryExpr); ok && (be.Op == token.EQL || be.Op == token.NEQ) && v.Else == nil && endsWithReturn(v.Body.List) {
+			if nid, ok := be.Y.(*ast.Ident); ok && nid.Name == "nil" {
+				if pc, pt := t.expr(be.X, en.clone()); pt.k == kOpt && len(pt.sub) == 1 && pt.sub[0].k != kUnknown {
+					// `if p == nil { return .. }` / `if p != nil { return .. *p .. }`: a match; below `Some`, an identifier p is the value
+					// pointed to, any other pointer expression is dereferenced through the bound name
+					key := types.ExprString(be.X)
+					bound := "deref__"
+					some := en.clone()
+					if id, ok := be.X.(*ast.Ident); ok {
+						bound = id.Name
+						some.vars[id.Name] = pt.sub[0]
+					} else {
+						some.deref[key] = bound
+					}
+					none := en.clone()
+					var a, b string
+					if be.Op == token.EQL {
+						a = t.block(v.Body.List, none, "", ind+"    ")
+						b = t.block(rest, some, tail, ind+"    ")
+					} else {
+						b = t.block(v.Body.List, some, "", ind+"    ")
+						a = t.block(rest, none, tail, ind+"    ")
+					}
+					return "match " + pc + " with\n" + ind + "  | None =>\n" + ind + "    " + a + "\n" + ind + "  | Some " + bound + " =>\n" + ind + "    " + b + "\n" + ind + "  end"
+				}
+			}
 		}
 		c, _ := t.expr(v.Cond, en)
 		var elseList []ast.Stmt
@@ -1072,6 +1258,83 @@ func (t *tr) oracleCall(e ast.Expr, en *env) (string, bool) {
 		t.ctxOrder = append(t.ctxOrder, name)
 	}
 	return "(" + name + " " + strings.Join(args, " ") + ")", true
+}
+
+// packageSlice: the elements of `var name = []T{...}` declared at package level in the current file
+func (t *tr) packageSlice(name string) []ast.Expr {
+	for _, d := range t.file.Decls {
+		gd, ok := d.(*ast.GenDecl)
+		if !ok || gd.Tok != token.VAR {
+			continue
+		}
+		for _, sp := range gd.Specs {
+			vs := sp.(*ast.ValueSpec)
+			for i, n := range vs.Names {
+				if n.Name == name && i < len(vs.Values) {
+					if cl, ok := vs.Values[i].(*ast.CompositeLit); ok {
+						if _, isArr := cl.Type.(*ast.ArrayType); isArr {
+							return cl.Elts
+						}
+					}
+				}
+			}
+		}
+	}
+	return nil
+}
+
+// loadIntConsts registers the integer constants of a file (literals, T(literal), iota and its implicit repetition), under their
+// own names and, when alias is not empty, under alias.Name
+func (t *tr) loadIntConsts(f *ast.File, alias string) {
+	for _, d := range f.Decls {
+		gd, ok := d.(*ast.GenDecl)
+		if !ok || gd.Tok != token.CONST {
+			continue
+		}
+		var lastVals []ast.Expr
+		for idx, sp := range gd.Specs {
+			vs := sp.(*ast.ValueSpec)
+			vals := vs.Values
+			if len(vals) == 0 {
+				vals = lastVals
+			} else {
+				lastVals = vals
+			}
+			for i, n := range vs.Names {
+				if i >= len(vals) {
+					continue
+				}
+				var e ast.Expr = vals[i]
+				if ce, ok := e.(*ast.CallExpr); ok && len(ce.Args) == 1 {
+					e = ce.Args[0]
+				}
+				code := ""
+				switch x := e.(type) {
+				case *ast.Ident:
+					if x.Name == "iota" {
+						code = strconv.Itoa(idx)
+					}
+				case *ast.BasicLit:
+					if x.Kind == token.INT && len(vs.Values) > 0 {
+						code = x.Value
+					}
+				}
+				if code == "" {
+					continue
+				}
+				c := struct {
+					code string
+					t    ty
+				}{code, ty{k: kInt}}
+				if _, exists := t.consts[n.Name]; !exists {
+					t.consts[n.Name] = c
+				}
+				if alias != "" {
+					t.consts[alias+"."+n.Name] = c
+				}
+			}
+		}
+	}
 }
 
 func hasReturn(list []ast.Stmt) bool {
@@ -1244,7 +1507,43 @@ func (t *tr) run() string {
 			}
 		}
 	}
+	var extraKeys []string
+	for _, ex := range t.tg.Extra {
+		fs := token.NewFileSet()
+		ef, err := parser.ParseFile(fs, filepath.Join(repoRoot, ex.File), nil, 0)
+		if err != nil {
+			t.fail(nil, "extra source %s: %v", ex.File, err)
+			continue
+		}
+		t.loadIntConsts(ef, ex.Alias)
+		for _, d := range ef.Decls {
+			fd, ok := d.(*ast.FuncDecl)
+			if !ok || fd.Body == nil || fd.Recv == nil || len(fd.Recv.List) != 1 {
+				continue
+			}
+			rt := fd.Recv.List[0].Type
+			if st, ok := rt.(*ast.StarExpr); ok {
+				rt = st.X
+			}
+			if id, ok := rt.(*ast.Ident); ok {
+				key := id.Name + "." + fd.Name.Name
+				for _, want := range ex.Funcs {
+					if want == key {
+						t.funcs[key] = fd
+						t.funcFile[key] = ef
+					}
+				}
+			}
+		}
+		extraKeys = append(extraKeys, ex.Funcs...)
+	}
+	errsBefore := t.errs
 	t.errs = nil // literals the targets do not use may be unsupported: not an error
+	for _, e := range errsBefore {
+		if strings.Contains(e, "extra source") {
+			t.errs = append(t.errs, e)
+		}
+	}
 	// records
 	for _, name := range t.tg.Structs {
 		ts := t.typeSpec(name)
@@ -1275,6 +1574,17 @@ func (t *tr) run() string {
 		t.structs[name] = sd
 		for _, fl := range st.Fields.List {
 			for _, n := range fl.Names {
+				if view, ok := t.tg.StructFields[name]; ok {
+					keep := false
+					for _, f := range view {
+						if f == n.Name {
+							keep = true
+						}
+					}
+					if !keep {
+						continue
+					}
+				}
 				ft := goType(fl.Type, t.structs)
 				if ft.k == kUnknown {
 					t.fail(fl, "field %s.%s has an unsupported type", name, n.Name)
@@ -1302,7 +1612,12 @@ func (t *tr) run() string {
 	o.WriteString("\n")
 	// functions
 	var defs []string
-	for _, key := range t.tg.Funcs {
+	mainFile := t.file
+	for _, key := range append(append([]string{}, extraKeys...), t.tg.Funcs...) {
+		t.file = mainFile
+		if ef, ok := t.funcFile[key]; ok {
+			t.file = ef
+		}
 		fd := t.funcs[key]
 		if fd == nil {
 			t.fail(nil, "function %s not found in %s", key, t.tg.File)
@@ -1312,12 +1627,15 @@ func (t *tr) run() string {
 		if i := strings.Index(key, "."); i >= 0 {
 			recvType = key[:i]
 		}
-		en := &env{vars: map[string]ty{}, flat: map[string]bool{}}
+		en := &env{vars: map[string]ty{}, flat: map[string]bool{}, deref: map[string]string{}}
 		var params []string
 		if fd.Recv != nil && len(fd.Recv.List) == 1 && len(fd.Recv.List[0].Names) == 1 {
 			en.recv = fd.Recv.List[0].Names[0].Name
 			if recvType == t.tg.Ctx {
 				en.rctx = true
+			} else if curIntTypes[recvType] {
+				en.vars[en.recv] = ty{k: kInt, name: recvType}
+				params = append(params, fmt.Sprintf("(%s : N)", en.recv))
 			} else {
 				en.vars[en.recv] = ty{k: kStruct, name: recvType}
 				params = append(params, fmt.Sprintf("(%s : %s)", en.recv, recvType))
@@ -1426,10 +1744,12 @@ func (t *tr) run() string {
 		if len(names) > 1 {
 			tup = "(" + tup + ")"
 		}
+		t.file = mainFile
 		body := t.block([]ast.Stmt{loop}, en, tup, "  ")
 		defs = append(defs, fmt.Sprintf("(* the first for statement of %s, as a function of its free variables; result: %s *)\nDefinition %s %s :=\n  %s.\n",
 			rg.Func, tup, rg.Name, strings.Join(params, " "), body))
 	}
+	t.file = mainFile
 	if t.tg.Ctx != "" {
 		fmt.Fprintf(&o, "Section %s.\n", t.tg.Ctx)
 		for _, n := range t.ctxOrder {
@@ -1471,7 +1791,11 @@ func main() {
 			consts: map[string]struct {
 				code string
 				t    ty
-			}{}, rets: map[string]ty{}, ctxVars: map[string]ty{}}
+			}{}, rets: map[string]ty{}, ctxVars: map[string]ty{}, funcFile: map[string]*ast.File{}}
+		curIntTypes = map[string]bool{}
+		for _, n := range tg.IntTypes {
+			curIntTypes[n] = true
+		}
 		for _, d := range f.Decls {
 			fd, ok := d.(*ast.FuncDecl)
 			if !ok || fd.Body == nil {
